@@ -74,3 +74,472 @@ Proof.
   assert ((m <? I32MAX) = true) as -> by lia.
   exists m. split; [reflexivity|]. split; [exact B|]. destruct C as [C|C]; [lia|exact C].
 Qed.
+
+Lemma nth_error_some_len {A B} : forall (l1 : list A) (l2 : list B) i b,
+  length l1 = length l2 -> nth_error l2 i = Some b -> exists a, nth_error l1 i = Some a.
+Proof.
+  intros l1 l2 i b Hl Hn. destruct (nth_error l1 i) eqn:E; [eauto|].
+  apply nth_error_None in E. assert (nth_error l2 i <> None) as B7 by congruence.
+  apply nth_error_Some in B7. lia.
+Qed.
+
+Lemma with_sync_self : forall p, with_sync p (ps_sync p) = p.
+Proof. destruct p; reflexivity. Qed.
+Lemma with_disc_null : forall p, ps_disc_frame p = NULL -> with_disc_frame p NULL = p.
+Proof. destruct p; cbn; intros ->; reflexivity. Qed.
+
+Section ProgressA.
+Variable predict : Z -> Z.
+
+Lemma resim_go_shape : forall n i p mc o p' o',
+  resim_go predict n i p mc o = Ok (p', o') -> p' = with_sync p (ps_sync p').
+Proof.
+  induction n as [|n IH]; intros i p mc o p' o' E; cbn [resim_go] in E.
+  - injection E as <- <-. symmetry. apply with_sync_self.
+  - destruct (synchronized_inputs predict (ps_sync p) (ps_status p)) as [[s1 ins]| |]; cbn [res_bind] in E; try discriminate.
+    match type of E with res_bind ?X _ = _ => destruct X as [[s2 o2]| |] end; cbn [res_bind] in E; try discriminate.
+    apply IH in E. rewrite E. cbn [with_sync ps_sync]. rewrite with_sync_idem. reflexivity.
+Qed.
+
+Lemma adjust_shape : forall p fi mc o p' o',
+  adjust_gamestate predict p fi mc o = Ok (p', o') -> p' = with_sync p (ps_sync p').
+Proof.
+  intros p fi mc o p' o' E. unfold adjust_gamestate in E.
+  destruct (_ <? _); [discriminate|].
+  destruct (load_frame _ _) as [[s1 r]| |]; cbn [res_bind] in E; try discriminate.
+  destruct (resim_go _ _ _ _ _ _) as [[p2 o2]| |] eqn:Er; cbn [res_bind] in E; try discriminate.
+  destruct (negb _); [discriminate|]. injection E as <- <-.
+  apply resim_go_shape in Er. rewrite Er. cbn [with_sync ps_sync]. rewrite with_sync_idem. reflexivity.
+Qed.
+
+(* the rollback step of advance_rollback_frame cannot fail in a session whose queues satisfy the
+   invariant and whose frames sit inside the window *)
+Lemma handle_rollback_progress : forall p gs cf o g w hi,
+  ps_sparse p = false -> connected (ps_status p) ->
+  length (ps_status p) = length (s_queues (ps_sync p)) -> ps_disc_frame p = NULL ->
+  QsI (s_current (ps_sync p)) (s_last_confirmed (ps_sync p)) (s_queues (ps_sync p)) gs ->
+  -1 <= s_last_confirmed (ps_sync p) -> 0 <= s_current (ps_sync p) ->
+  s_current (ps_sync p) <= Z.max 0 (s_last_confirmed (ps_sync p)) + w ->
+  1 <= w -> s_maxpred (ps_sync p) = w -> gframe g = s_current (ps_sync p) ->
+  s_current (ps_sync p) - 1 <= hi ->
+  CellsI w (Z.max 0 (s_current (ps_sync p) - w)) hi (ps_sync p) g ->
+  exists p1 o1, handle_rollback_and_save predict p cf o = Ok (p1, o1) /\
+    p1 = with_sync p (ps_sync p1) /\
+    QsI (s_current (ps_sync p)) (s_last_confirmed (ps_sync p)) (s_queues (ps_sync p1)) gs /\
+    all_clean (s_queues (ps_sync p1)) /\
+    same_user (s_queues (ps_sync p)) (s_queues (ps_sync p1)) /\
+    s_last_confirmed (ps_sync p1) = s_last_confirmed (ps_sync p) /\
+    s_current (ps_sync p1) = s_current (ps_sync p) /\
+    (forall h q gh q', nth_error (s_queues (ps_sync p)) h = Some q -> nth_error gs h = Some gh ->
+       nth_error (s_queues (ps_sync p1)) h = Some q' -> s_current (ps_sync p) <= hlen (fst gh) ->
+       pi_frame (q_pred q) = NULL -> pi_frame (q_pred q') = NULL).
+Proof.
+  intros p gs cf o g w hi Hsp Hcon Hlen Hdf HQ HL Hc Hwin Hw Hmp Hgf Hhi Hcells.
+  unfold handle_rollback_and_save. unfold check_simulation_consistency. rewrite Hdf.
+  pose proof (csc_spec predict (s_queues (ps_sync p)) gs _ _ NULL HQ (or_introl eq_refl)) as Hcsc. cbv zeta in Hcsc.
+  set (fi := fold_left _ _ NULL) in *.
+  destruct Hcsc as [(Hr & _ & Hcl)|Hr].
+  - rewrite Hr, Z.eqb_refl. cbn [res_bind]. cbv beta iota. rewrite Hsp.
+    unfold save_current_state. assert ((s_current (ps_sync p) <? 0) = false) as -> by lia. cbn [res_bind].
+    eexists; eexists. split; [reflexivity|].
+    cbn [with_sync ps_sync s_queues s_last_confirmed s_current].
+    split; [reflexivity|]. split; [exact HQ|]. split; [exact Hcl|]. split; [apply same_user_refl|].
+    split; [reflexivity|]. split; [reflexivity|].
+    intros h q gh q' A _ B _ Hn. rewrite A in B. injection B as <-. exact Hn.
+  - assert ((fi =? NULL) = false) as -> by (unfold NULL in *; lia).
+    destruct (adjust_progress predict p gs (s_last_confirmed (ps_sync p)) fi cf o g w hi Hsp Hcon Hlen HQ)
+      as (p2 & o2 & Ea & A1 & A2 & A3 & A4 & A5 & A6 & A7); try lia; try assumption.
+    rewrite Ea. cbn [res_bind].
+    pose proof (adjust_shape _ _ _ _ _ _ Ea) as Hshape.
+    assert (Hd2 : with_disc_frame p2 NULL = p2).
+    { apply with_disc_null. rewrite Hshape. cbn. exact Hdf. }
+    rewrite Hd2.
+    assert (Hsp2 : ps_sparse p2 = false) by (rewrite Hshape; cbn; exact Hsp).
+    rewrite Hsp2. unfold save_current_state. rewrite A6.
+    assert ((s_current (ps_sync p) <? 0) = false) as -> by lia. cbn [res_bind].
+    eexists; eexists. split; [reflexivity|].
+    cbn [with_sync ps_sync s_queues s_last_confirmed s_current].
+    split; [rewrite Hshape at 1; cbn [with_sync]; reflexivity|].
+    split; [exact A1|]. split; [exact A2|]. split; [exact A3|]. split; [exact A4|]. split; [reflexivity|].
+    intros h q gh q' _ B C D _. exact (A7 h gh q' B C D).
+Qed.
+
+End ProgressA.
+
+(* ================= the queue-side session invariant ================= *)
+(* w = max_prediction, d = the input delay of the local players; gs = per player (history, low) *)
+Record QS (w d : Z) (p : p2p) (gs : list ghost) : Prop := {
+  qs_w : 1 <= w /\ ps_maxpred p = w /\ s_maxpred (ps_sync p) = w;
+  qs_d : 0 <= d /\ w + d + 3 <= QLEN;
+  qs_mode : ps_running p = true /\ ps_sparse p = false /\ ps_spectators p = [] /\ ps_disc_frame p = NULL;
+  qs_n : Z.of_nat (length gs) = ps_nplayers p /\ 0 < ps_nplayers p /\ length (ps_kinds p) = length gs /\
+         length (ps_status p) = length gs;
+  qs_conn : connected (ps_status p);
+  qs_gossip : Forall (fun e => connected (ev_status e)) (ps_remotes p);
+  qs_qs : QsI (s_current (ps_sync p)) (s_last_confirmed (ps_sync p)) (s_queues (ps_sync p)) gs;
+  qs_last : Forall2 (fun st g => cs_last st = hlen (fst g) - 1) (ps_status p) gs;
+  qs_frames : -1 <= s_last_confirmed (ps_sync p) <= s_current (ps_sync p) /\ 0 <= s_current (ps_sync p) /\
+              s_current (ps_sync p) <= Z.max 0 (s_last_confirmed (ps_sync p)) + w;
+  qs_kinds : forall h k q gh, nth_error (ps_kinds p) h = Some k -> nth_error (s_queues (ps_sync p)) h = Some q ->
+             nth_error gs h = Some gh -> KI (s_current (ps_sync p)) d k q (fst gh);
+  qs_pending : forall h pi, assoc_get (ps_pending p) h = Some pi -> pi_frame pi = s_current (ps_sync p);
+}.
+
+Lemma QS_outgoing : forall w d p gs X Y, QS w d p gs -> QS w d (with_outgoing p X Y) gs.
+Proof. intros w d p gs X Y [A B C D E F G H I J K]. constructor; cbn [with_outgoing ps_maxpred ps_sync ps_running ps_sparse ps_spectators ps_disc_frame ps_nplayers ps_kinds ps_status ps_remotes ps_pending]; assumption. Qed.
+
+Lemma updz_same {A} : forall (l : list A) i x, nth_error l i = Some x -> updz l i x = l.
+Proof.
+  induction l as [|y l IH]; intros [|i] x H; cbn in *; try discriminate.
+  - injection H as ->. reflexivity.
+  - rewrite (IH i x H). reflexivity.
+Qed.
+Lemma nth_error_updz_same {A} : forall (l : list A) i x, (i < length l)%nat -> nth_error (updz l i x) i = Some x.
+Proof. induction l as [|y l IH]; intros [|i] x H; cbn in *; try lia; auto. apply IH. lia. Qed.
+Lemma nth_error_updz_other {A} : forall (l : list A) i j x, i <> j -> nth_error (updz l i x) j = nth_error l j.
+Proof. induction l as [|y l IH]; intros [|i] [|j] x H; cbn; auto; try congruence. Qed.
+
+Lemma assoc_get_put {A} : forall (l : list (Z * A)) k v k',
+  assoc_get (assoc_put l k v) k' = if k =? k' then Some v else assoc_get l k'.
+Proof.
+  induction l as [|[k0 v0] l IH]; intros k v k'; cbn [assoc_put assoc_get].
+  - destruct (Z.eqb_spec k k'); reflexivity.
+  - destruct (Z.eqb_spec k k0) as [E0|E0].
+    + subst k0. cbn [assoc_get]. destruct (Z.eqb_spec k k'); reflexivity.
+    + destruct (Z.ltb_spec k k0).
+      * cbn [assoc_get]. destruct (Z.eqb_spec k k'); reflexivity.
+      * cbn [assoc_get]. rewrite IH. destruct (Z.eqb_spec k0 k') as [E1|E1]; [|reflexivity].
+        destruct (Z.eqb_spec k k'); [congruence|reflexivity].
+Qed.
+
+(* ---------- the outgoing-input bookkeeping never fails ---------- *)
+Definition out_only (p p' : p2p) : Prop := p' = with_outgoing p (ps_outgoing p') (ps_last_sent_out p').
+Lemma out_only_refl : forall p, out_only p p.
+Proof. intros p. unfold out_only. destruct p; reflexivity. Qed.
+Lemma out_only_trans : forall a b c, out_only a b -> out_only b c -> out_only a c.
+Proof. unfold out_only. intros a b c H1 H2. rewrite H2. rewrite H1 at 1. destruct a; reflexivity. Qed.
+Lemma out_only_with : forall p X Y, out_only p (with_outgoing p X Y).
+Proof. intros. unfold out_only. destruct p; reflexivity. Qed.
+Lemma QS_out_only : forall w d p p' gs, QS w d p gs -> out_only p p' -> QS w d p' gs.
+Proof. intros w d p p' gs H E. rewrite E. apply QS_outgoing. exact H. Qed.
+
+Lemma queue_outgoing_ok : forall p h i, pi_frame i <> NULL -> exists p', queue_outgoing p h i = Ok p' /\ out_only p p'.
+Proof.
+  intros p h i Hn. unfold queue_outgoing. assert ((pi_frame i =? NULL) = false) as -> by lia.
+  destruct (ps_remotes p); eexists; (split; [reflexivity|]); [apply out_only_refl|apply out_only_with].
+Qed.
+
+Lemma queue_blanks_ok : forall n p h f, 0 <= f -> exists p', queue_blanks n p h f = Ok p' /\ out_only p p'.
+Proof.
+  induction n as [|n IH]; intros p h f Hf; cbn [queue_blanks].
+  - exists p. split; [reflexivity|apply out_only_refl].
+  - destruct (queue_outgoing_ok p h (blank f)) as (p1 & E1 & O1); [cbn; unfold NULL; lia|].
+    rewrite E1. cbn [res_bind]. destruct (IH p1 h (f + 1) ltac:(lia)) as (p2 & E2 & O2).
+    exists p2. split; [exact E2|eapply out_only_trans; eassumption].
+Qed.
+
+Lemma find_assoc {A} : forall (l : list (Z * A)) P f m, find P l = Some (f, m) -> exists m', assoc_get l f = Some m'.
+Proof.
+  induction l as [|[k v] l IH]; intros P f m H; cbn [find assoc_get] in *; [discriminate|].
+  destruct (P (k, v)).
+  - injection H as -> ->. rewrite Z.eqb_refl. eauto.
+  - destruct (Z.eqb_spec k f); [eauto|]. eapply IH. exact H.
+Qed.
+
+Lemma send_ready_go_ok : forall n p locals o, exists p' o', send_ready_go n p locals o = Ok (p', o') /\ out_only p p'.
+Proof.
+  induction n as [|n IH]; intros p locals o; cbn [send_ready_go].
+  - exists p, o. split; [reflexivity|apply out_only_refl].
+  - destruct (next_complete p locals) as [f|] eqn:En.
+    + assert (exists m, assoc_get (ps_outgoing p) f = Some m) as (m & Em).
+      { unfold next_complete in En. destruct (ps_last_sent_out p =? NULL).
+        - destruct (find _ _) as [[f0 m0]|] eqn:Ef; [|discriminate]. injection En as <-. eapply find_assoc. exact Ef.
+        - destruct (assoc_get _ _) as [m0|] eqn:Ea; [|discriminate]. destruct (complete locals m0); [|discriminate].
+          injection En as <-. eauto. }
+      rewrite Em.
+      match goal with |- context [send_ready_go n ?P locals ?O] => destruct (IH P locals O) as (p' & o' & E & Oo) end.
+      exists p', o'. split; [exact E|]. eapply out_only_trans; [apply out_only_with|exact Oo].
+    + exists p, o. split; [reflexivity|apply out_only_refl].
+Qed.
+
+Lemma send_ready_outgoing_ok : forall p o, exists p' o', send_ready_outgoing p o = Ok (p', o') /\ out_only p p'.
+Proof.
+  intros p o. unfold send_ready_outgoing. destruct (ps_remotes p).
+  - exists p, o. split; [reflexivity|apply out_only_refl].
+  - destruct (local_handles p).
+    + exists p, o. split; [reflexivity|apply out_only_refl].
+    + apply send_ready_go_ok.
+Qed.
+
+(* ---------- register_local_inputs ---------- *)
+Lemma Forall_updz {A} (P : A -> Prop) : forall l i x, Forall P l -> P x -> Forall P (updz l i x).
+Proof. induction l as [|y l IH]; intros [|i] x H Hx; inversion H; subst; cbn [updz]; constructor; auto. Qed.
+
+Lemma hlen_fill : forall hist x n v, hlen (hist ++ repeat x n ++ [v]) = hlen hist + Z.of_nat n + 1.
+Proof. intros. unfold hlen. rewrite !app_length, repeat_length. cbn. lia. Qed.
+
+Lemma with_queues_self : forall s, with_queues s (s_queues s) = s.
+Proof. destruct s; reflexivity. Qed.
+
+(* a local insertion into a queue that is not predicting keeps the per-queue invariant *)
+Lemma qi_local_add : forall c L q hist low q' hist',
+  QI c L q hist low -> pi_frame (q_pred q) = NULL -> q_first_incorrect q = NULL ->
+  RInv q' hist' low -> q_last_requested q' = q_last_requested q ->
+  q_first_incorrect q' = q_first_incorrect q -> q_pred q' = q_pred q -> hlen hist <= hlen hist' ->
+  QI c L q' hist' low.
+Proof.
+  intros c L q hist low q' hist' [I P1 P2 P4 Rq Lw Cf] Hp Hf I' R' F' P' Hle.
+  constructor; rewrite ?R', ?F', ?P'.
+  - exact I'.
+  - left. exact Hp.
+  - intros A. congruence.
+  - intros A. congruence.
+  - exact Rq.
+  - exact Lw.
+  - lia.
+Qed.
+
+Definition Done (c d : Z) (qs : list queue) (gs : list ghost) (h : Z) : Prop :=
+  forall q gh, nth_error qs (Z.to_nat h) = Some q -> nth_error gs (Z.to_nat h) = Some gh ->
+    hlen (fst gh) = c + d + 1 /\ q_last_user q = c.
+
+(* the part of an iteration after the sync layer accepted the input for frame c + d *)
+Lemma register_tail : forall w d p gs h v r q q' hist hist' low,
+  QS w d p gs -> all_clean (s_queues (ps_sync p)) ->
+  0 <= h -> nth_error (ps_kinds p) (Z.to_nat h) = Some KLocal ->
+  nth_error (s_queues (ps_sync p)) (Z.to_nat h) = Some q -> nth_error gs (Z.to_nat h) = Some (hist, low) ->
+  pi_frame (q_pred q) = NULL -> q_first_incorrect q = NULL ->
+  RInv q' hist' low -> q_delay q' = q_delay q -> q_last_user q' = s_current (ps_sync p) ->
+  q_last_requested q' = q_last_requested q -> q_first_incorrect q' = q_first_incorrect q -> q_pred q' = q_pred q ->
+  hlen hist' = s_current (ps_sync p) + d + 1 -> hlen hist <= hlen hist' ->
+  let p1 := with_sync p (with_queues (ps_sync p) (updz (s_queues (ps_sync p)) (Z.to_nat h) q')) in
+  let actual := s_current (ps_sync p) + d in
+  exists p' gs',
+    res_bind (if cs_last (stat_at p1 h) =? NULL then queue_blanks (Z.to_nat actual) p1 h 0 else Ok p1)
+      (fun p2 => res_bind (queue_outgoing (with_status p2 (set_stat (ps_status p2) h (mkcs (cs_disc (stat_at p2 h)) actual)))
+                                          h (mkpi actual v))
+                          (fun p4 => register_go p4 r)) = register_go p' r /\
+    QS w d p' gs' /\ all_clean (s_queues (ps_sync p')) /\ p_rest p p' /\
+    s_current (ps_sync p') = s_current (ps_sync p) /\ s_last_confirmed (ps_sync p') = s_last_confirmed (ps_sync p) /\
+    Done (s_current (ps_sync p)) d (s_queues (ps_sync p')) gs' h /\
+    (forall h', h' <> h -> 0 <= h' -> Done (s_current (ps_sync p)) d (s_queues (ps_sync p)) gs h' ->
+                Done (s_current (ps_sync p)) d (s_queues (ps_sync p')) gs' h').
+Proof.
+  intros w d p gs h v r q q' hist hist' low HQS Hcl Hh Hk Eq Eg Hpn Hfq I' D' U' R' F' P' Hlen' Hle p1 actual.
+  pose proof HQS as [Hw Hd Hmode Hn Hconn Hgos HQ Hlast Hfr Hkinds Hpe].
+  set (c := s_current (ps_sync p)) in *. set (L := s_last_confirmed (ps_sync p)) in *.
+  pose proof (QsI_length _ _ _ _ HQ) as Hlq.
+  destruct Hn as (Hn1 & Hn2 & Hn3 & Hn4).
+  assert (Hhl : (Z.to_nat h < length gs)%nat).
+  { assert (nth_error (ps_kinds p) (Z.to_nat h) <> None) as A by congruence. apply nth_error_Some in A. lia. }
+  pose proof (Forall2_nth _ _ _ _ _ _ HQ Eq Eg) as Hqi. cbn [fst snd] in Hqi.
+  assert (Hact : actual <> NULL) by (subst actual; unfold NULL; lia).
+  (* the blanks *)
+  assert (Hb : exists p2, (if cs_last (stat_at p1 h) =? NULL then queue_blanks (Z.to_nat actual) p1 h 0 else Ok p1) = Ok p2 /\ out_only p1 p2).
+  { destruct (cs_last (stat_at p1 h) =? NULL).
+    - apply queue_blanks_ok. lia.
+    - exists p1. split; [reflexivity|apply out_only_refl]. }
+  destruct Hb as (p2 & Eb & O2). rewrite Eb. cbn [res_bind].
+  set (st' := set_stat (ps_status p2) h (mkcs (cs_disc (stat_at p2 h)) actual)).
+  destruct (queue_outgoing_ok (with_status p2 st') h (mkpi actual v)) as (p4 & E4 & O4); [exact Hact|].
+  rewrite E4. cbn [res_bind].
+  set (gs' := updz gs (Z.to_nat h) (hist', low)).
+  exists p4, gs'. split; [reflexivity|].
+  (* the state before the outgoing bookkeeping *)
+  set (stA := set_stat (ps_status p) h (mkcs false actual)).
+  set (pA := with_status p1 stA).
+  assert (Hst2 : ps_status p2 = ps_status p) by (rewrite O2; reflexivity).
+  assert (Hdisc : cs_disc (stat_at p2 h) = false).
+  { unfold stat_at. rewrite Hst2. apply nth_connected. exact Hconn. }
+  assert (HpA : with_status p2 st' = with_outgoing pA (ps_outgoing p2) (ps_last_sent_out p2)).
+  { subst st' pA stA. rewrite Hdisc, Hst2. rewrite O2. subst p1. reflexivity. }
+  assert (HQA : QS w d pA gs').
+  { subst pA p1 stA gs'. constructor;
+      cbn [with_status with_sync with_queues ps_maxpred ps_sync ps_running ps_sparse ps_spectators ps_disc_frame ps_nplayers
+           ps_kinds ps_status ps_remotes ps_pending s_maxpred s_current s_last_confirmed s_queues].
+    - exact Hw.
+    - exact Hd.
+    - exact Hmode.
+    - rewrite updz_length. unfold set_stat. rewrite updz_length. repeat split; assumption.
+    - unfold set_stat. apply Forall_updz; [exact Hconn|reflexivity].
+    - exact Hgos.
+    - apply Forall2_updz2; [exact HQ|]. cbn [fst snd].
+      eapply qi_local_add; eassumption.
+    - unfold set_stat. apply Forall2_updz2; [exact Hlast|]. cbn [cs_last fst]. subst actual. lia.
+    - exact Hfr.
+    - intros h0 k q0 gh0 A B C.
+      destruct (Nat.eq_dec (Z.to_nat h) h0) as [Eh|Eh].
+      + subst h0. rewrite nth_error_updz_same in B by lia. rewrite nth_error_updz_same in C by lia.
+        injection B as <-. injection C as <-. rewrite Hk in A. injection A as <-.
+        cbn [KI fst].
+        pose proof (Hkinds _ _ _ _ Hk Eq Eg) as Hki. cbn [KI] in Hki. destruct Hki as (Hdel & _ & _).
+        split; [congruence|]. split; [congruence|]. right. right. split; [exact Hlen'|exact U'].
+      + rewrite nth_error_updz_other in B by exact Eh. rewrite nth_error_updz_other in C by exact Eh.
+        exact (Hkinds _ _ _ _ A B C).
+    - exact Hpe. }
+  assert (HQ4 : QS w d p4 gs').
+  { eapply QS_out_only; [|exact O4]. rewrite HpA. apply QS_outgoing. exact HQA. }
+  assert (Hs4 : ps_sync p4 = with_queues (ps_sync p) (updz (s_queues (ps_sync p)) (Z.to_nat h) q')).
+  { rewrite O4. cbn [with_outgoing ps_sync]. rewrite HpA. reflexivity. }
+  split; [exact HQ4|].
+  split.
+  { rewrite Hs4. cbn [with_queues s_queues]. apply Forall_updz; [exact Hcl|congruence]. }
+  split.
+  { rewrite O4, HpA. subst pA p1. unfold p_rest. cbn. repeat split. }
+  split; [rewrite Hs4; reflexivity|]. split; [rewrite Hs4; reflexivity|].
+  split.
+  - intros q0 gh0 B C. rewrite Hs4 in B. cbn [with_queues s_queues] in B. subst gs'.
+    rewrite nth_error_updz_same in B by lia. rewrite nth_error_updz_same in C by lia.
+    injection B as <-. injection C as <-. cbn [fst]. split; [exact Hlen'|exact U'].
+  - intros h' Hne Hh' Hdone q0 gh0 B C. rewrite Hs4 in B. cbn [with_queues s_queues] in B. subst gs'.
+    assert (Z.to_nat h <> Z.to_nat h') by lia.
+    rewrite nth_error_updz_other in B by assumption. rewrite nth_error_updz_other in C by assumption.
+    exact (Hdone q0 gh0 B C).
+Qed.
+
+(* one iteration of register_local_inputs for a local handle with a pending input *)
+Lemma register_step : forall w d p gs h pi r,
+  QS w d p gs -> all_clean (s_queues (ps_sync p)) ->
+  0 <= h -> nth_error (ps_kinds p) (Z.to_nat h) = Some KLocal ->
+  assoc_get (ps_pending p) h = Some pi ->
+  exists p' gs', register_go p (h :: r) = register_go p' r /\
+    QS w d p' gs' /\ all_clean (s_queues (ps_sync p')) /\ p_rest p p' /\
+    s_current (ps_sync p') = s_current (ps_sync p) /\ s_last_confirmed (ps_sync p') = s_last_confirmed (ps_sync p) /\
+    Done (s_current (ps_sync p)) d (s_queues (ps_sync p')) gs' h /\
+    (forall h', h' <> h -> 0 <= h' -> Done (s_current (ps_sync p)) d (s_queues (ps_sync p)) gs h' ->
+                Done (s_current (ps_sync p)) d (s_queues (ps_sync p')) gs' h').
+Proof.
+  intros w d p gs h pi r HQS Hcl Hh Hk Hpend.
+  pose proof HQS as [Hw Hd Hmode Hn Hconn Hgos HQ Hlast Hfr Hkinds Hpe].
+  set (c := s_current (ps_sync p)) in *. set (L := s_last_confirmed (ps_sync p)) in *.
+  pose proof (QsI_length _ _ _ _ HQ) as Hlq.
+  destruct Hn as (Hn1 & Hn2 & Hn3 & Hn4).
+  assert (Hhl : (Z.to_nat h < length gs)%nat).
+  { assert (nth_error (ps_kinds p) (Z.to_nat h) <> None) as A by congruence. apply nth_error_Some in A. lia. }
+  destruct (nth_error (s_queues (ps_sync p)) (Z.to_nat h)) as [q|] eqn:Eq;
+    [|apply nth_error_None in Eq; lia].
+  destruct (nth_error gs (Z.to_nat h)) as [gh|] eqn:Eg; [|apply nth_error_None in Eg; lia].
+  pose proof (Forall2_nth _ _ _ _ _ _ HQ Eq Eg) as Hqi. cbv beta in Hqi.
+  pose proof (Hkinds _ _ _ _ Hk Eq Eg) as Hki. cbn [KI] in Hki. destruct Hki as (Hdel & Hpn & Hform).
+  assert (Hfq : q_first_incorrect q = NULL).
+  { unfold all_clean in Hcl. rewrite Forall_forall in Hcl. apply Hcl. eapply nth_error_In. exact Eq. }
+  pose proof (Hpe _ _ Hpend) as Hpf. fold c in Hpf.
+  cbn [register_go]. rewrite Hpend. unfold add_local_input. rewrite Hpf. fold c. rewrite Z.eqb_refl. cbn [negb].
+  assert (((h <? 0) || (Z.of_nat (length (s_queues (ps_sync p))) <=? h)) = false) as -> by lia.
+  assert (Hqn : qnth (ps_sync p) h = q).
+  { unfold qnth. erewrite nth_error_nth; [reflexivity|exact Eq]. }
+  rewrite Hqn.
+  destruct gh as [hist low]. cbn [fst snd] in *.
+  pose proof (qi_ring _ _ _ _ _ Hqi) as I.
+  assert (Hc0 : 0 <= c) by lia.
+  destruct Hform as [(Hh0 & Hlu & Hcz)|[(Hhl2 & Hlu & Hc1)|(Hhl3 & Hlu)]].
+  - (* first input: d fills then the input *)
+    subst hist.
+    destruct (add_input_ok q [] low c (pi_val pi) I Hpn ltac:(lia) (or_introl Hlu) Hc0) as [_ Hadd].
+    destruct (ri_low _ _ _ I) as (_ & _ & Hlow0). specialize (Hlow0 eq_refl). subst low.
+    pose proof QLEN_pos as HQL.
+    destruct Hadd as (q' & Ea & I' & D' & U' & R' & F' & P'); [unfold hlen; cbn; lia|unfold hlen; cbn; lia|].
+    rewrite Ea. cbn [res_bind]. rewrite Hdel.
+    assert ((c + d =? NULL) = false) as -> by (unfold NULL; lia).
+    eapply register_tail; try eassumption; fold c; rewrite ?hlen_fill; unfold hlen in *; cbn [length] in *; lia.
+  - (* the queue is exactly up to date: the input goes to frame c + d *)
+    assert (Hs : q_last_user q = NULL \/ c = q_last_user q + 1) by (right; lia).
+    destruct (add_input_ok q hist low c (pi_val pi) I Hpn ltac:(lia) Hs Hc0) as [_ Hadd].
+    destruct (qi_low _ _ _ _ _ Hqi) as (Lw1 & Lw2).
+    destruct (ri_low _ _ _ I) as (Hl0 & _ & _).
+    destruct Hadd as (q' & Ea & I' & D' & U' & R' & F' & P'); [lia|lia|].
+    rewrite Ea. cbn [res_bind]. rewrite Hdel.
+    assert ((c + d =? NULL) = false) as -> by (unfold NULL; lia).
+    eapply register_tail; try eassumption; fold c; rewrite ?hlen_fill; unfold hlen in *; lia.
+  - (* the input for this frame was registered by an earlier call that stalled: dropped *)
+    unfold add_input. rewrite Hlu.
+    assert ((negb (c =? NULL) && negb (c =? c + 1)) = true) as -> by (unfold NULL; lia).
+    cbn [res_bind]. rewrite Z.eqb_refl.
+    rewrite (updz_same _ _ _ Eq), with_queues_self, with_sync_self.
+    exists p, gs. split; [reflexivity|]. split; [exact HQS|]. split; [exact Hcl|]. split; [apply p_rest_refl|].
+    split; [reflexivity|]. split; [reflexivity|]. split.
+    + intros q0 gh0 B C. rewrite Eq in B. rewrite Eg in C. injection B as <-. injection C as <-. cbn [fst]. split; assumption.
+    + intros h' _ _ Hdone. exact Hdone.
+Qed.
+
+Lemma register_go_progress : forall hs w d p gs,
+  QS w d p gs -> all_clean (s_queues (ps_sync p)) ->
+  Forall (fun h => 0 <= h /\ nth_error (ps_kinds p) (Z.to_nat h) = Some KLocal /\
+                   exists pi, assoc_get (ps_pending p) h = Some pi) hs ->
+  exists p' gs', register_go p hs = Ok p' /\ QS w d p' gs' /\ all_clean (s_queues (ps_sync p')) /\ p_rest p p' /\
+    s_current (ps_sync p') = s_current (ps_sync p) /\ s_last_confirmed (ps_sync p') = s_last_confirmed (ps_sync p) /\
+    (forall h, 0 <= h -> In h hs \/ Done (s_current (ps_sync p)) d (s_queues (ps_sync p)) gs h ->
+               Done (s_current (ps_sync p)) d (s_queues (ps_sync p')) gs' h).
+Proof.
+  induction hs as [|h r IH]; intros w d p gs HQS Hcl Hall.
+  - exists p, gs. cbn [register_go]. split; [reflexivity|]. split; [exact HQS|]. split; [exact Hcl|].
+    split; [apply p_rest_refl|]. split; [reflexivity|]. split; [reflexivity|].
+    intros h _ [[]|H]. exact H.
+  - inversion Hall as [|? ? (Hh & Hk & pi & Hpe) Hall']; subst.
+    destruct (register_step w d p gs h pi r HQS Hcl Hh Hk Hpe) as (p1 & gs1 & E1 & HQ1 & Hcl1 & Hr1 & Hc1 & HL1 & Hd1 & Ht1).
+    rewrite E1.
+    assert (Hall1 : Forall (fun h => 0 <= h /\ nth_error (ps_kinds p1) (Z.to_nat h) = Some KLocal /\
+                                     exists pi, assoc_get (ps_pending p1) h = Some pi) r).
+    { destruct Hr1 as (_ & _ & _ & _ & _ & Hk1 & _ & _ & _ & Hp1). rewrite Hk1, Hp1. exact Hall'. }
+    destruct (IH w d p1 gs1 HQ1 Hcl1 Hall1) as (p' & gs' & E & HQ' & Hcl' & Hr' & Hc' & HL' & Hd').
+    exists p', gs'. split; [exact E|]. split; [exact HQ'|]. split; [exact Hcl'|].
+    split; [eapply p_rest_trans; eassumption|]. split; [congruence|]. split; [congruence|].
+    intros h0 Hh0 Hin. rewrite Hc1 in Hd'.
+    destruct (Z.eq_dec h0 h) as [->|Hne].
+    + apply Hd'; [exact Hh0|]. right. exact Hd1.
+    + apply Hd'; [exact Hh0|]. destruct Hin as [[->|Hin]|Hdone]; [congruence|left; exact Hin|].
+      right. apply Ht1; assumption.
+Qed.
+
+(* ---------- moving the invariant across a change of the sync layer ---------- *)
+Lemma Forall2_hlens : forall (st : list cstat) gs gs',
+  Forall2 (fun s g => cs_last s = hlen (fst g) - 1) st gs ->
+  map (fun g : ghost => hlen (fst g)) gs' = map (fun g : ghost => hlen (fst g)) gs ->
+  Forall2 (fun s g => cs_last s = hlen (fst g) - 1) st gs'.
+Proof.
+  induction st as [|s st IH]; intros gs gs' H E; inversion H; subst.
+  - destruct gs'; [constructor|discriminate].
+  - destruct gs' as [|g' gs']; [discriminate|]. cbn [map] in E. injection E as E1 E2.
+    constructor; [lia|]. eapply IH; eassumption.
+Qed.
+
+Lemma QS_resync : forall w d p gs s' gs',
+  QS w d p gs -> s_maxpred s' = s_maxpred (ps_sync p) ->
+  QsI (s_current s') (s_last_confirmed s') (s_queues s') gs' ->
+  map (fun g : ghost => hlen (fst g)) gs' = map (fun g : ghost => hlen (fst g)) gs ->
+  (-1 <= s_last_confirmed s' <= s_current s' /\ 0 <= s_current s' /\ s_current s' <= Z.max 0 (s_last_confirmed s') + w) ->
+  (forall h k q' gh', nth_error (ps_kinds p) h = Some k -> nth_error (s_queues s') h = Some q' ->
+                      nth_error gs' h = Some gh' -> KI (s_current s') d k q' (fst gh')) ->
+  (forall h pi, assoc_get (ps_pending p) h = Some pi -> pi_frame pi = s_current s') ->
+  QS w d (with_sync p s') gs'.
+Proof.
+  intros w d p gs s' gs' [Hw Hd Hmode Hn Hconn Hgos HQ Hlast Hfr Hkinds Hpe] Hmp HQ' Hmap Hfr' Hk' Hp'.
+  assert (Hlen : length gs' = length gs).
+  { apply (f_equal (@length Z)) in Hmap. rewrite !map_length in Hmap. exact Hmap. }
+  constructor; cbn [with_sync ps_maxpred ps_sync ps_running ps_sparse ps_spectators ps_disc_frame ps_nplayers
+                    ps_kinds ps_status ps_remotes ps_pending].
+  - destruct Hw as (A & B & C). repeat split; congruence.
+  - exact Hd.
+  - exact Hmode.
+  - rewrite Hlen. exact Hn.
+  - exact Hconn.
+  - exact Hgos.
+  - exact HQ'.
+  - eapply Forall2_hlens; eassumption.
+  - exact Hfr'.
+  - exact Hk'.
+  - exact Hp'.
+Qed.
+
+Lemma KI_transfer : forall c d k q q' hist,
+  KI c d k q hist -> q_delay q' = q_delay q -> q_last_user q' = q_last_user q ->
+  (pi_frame (q_pred q) = NULL -> pi_frame (q_pred q') = NULL) -> KI c d k q' hist.
+Proof.
+  intros c d [| |] q q' hist H D U P; cbn [KI] in *; [|rewrite D, U; exact H|exact H].
+  destruct H as (A & B & C). rewrite D, U. split; [exact A|]. split; [exact (P B)|exact C].
+Qed.
+
+Lemma KI_local_reach : forall c d q hist, 0 <= d -> KI c d KLocal q hist -> c <= hlen hist.
+Proof.
+  intros c d q hist Hd (A & B & [(C & _ & E)|[(C & _ & E)|(C & _)]]); [subst hist; unfold hlen; cbn; lia|lia|lia].
+Qed.
